@@ -42,16 +42,17 @@ class C02(Prop):
                    "dict keys are str; floats inside checksums / additional_variants are opaque tokens",
                    "image objects are not mutated between Images.add and dumps"]
     partial = {
-        "C02_readback_partial": "hypotheses Uniq (identity collisions are written but refused on reload: F11, C02_F11_witness) and ProperInts "
-                                "(a bool in an int attribute comes back as 1/0: F22, C02_bool_int_witness); both excluded regions are real "
-                                "defects with decide'd witnesses. C02_fixpoint / C02_bytes add DistinctPaths (the quantifier's own condition) and, "
-                                "for C02_bytes, json.load(printed text) = document as the explicit hypothesis hjson",
+        "C02_readback_partial": "hypothesis Uniq (identity collisions are written but refused on reload: F11, C02_F11_witness, a real defect with a "
+                                "decide'd witness). The former hypothesis ProperInts (F22: a bool in an int attribute came back as 1/0) is gone: "
+                                "_assert_type refuses a bool where bool is not listed (Gen.assertTypeBoolStrict, translated from the method body), so "
+                                "ProperInts follows from validate = ok (C02_valid_ints_proper, C02_bool_int_refused). C02_fixpoint / C02_bytes add "
+                                "DistinctPaths (the quantifier's own condition) and, for C02_bytes, json.load(printed text) = document as the explicit hypothesis hjson",
     }
 
     # ------------------------------------------------------------------ cases
     def cases(self, rng, tier, budget):
         yield {"op": "cycle", "args": {"spec": {"version": "0.0", "compose": F.gen_compose(rng), "pool": [], "adds": []}}}
-        n_f11 = n_f19 = 0                                  # the two known-finding streams are capped (they count as failures)
+        n_f11 = n_f19 = 0                                  # the known-finding stream F11 is capped (it counts as failures); so is the bool stream
         for n in range(budget):
             r = rng.random()
             if r >= 0.86 and r < 0.90 and n_f11 >= 10:
@@ -72,11 +73,11 @@ class C02(Prop):
                 spec["pool"].append(twin)
                 spec["adds"].append([rng.choice([a[0] for a in spec["adds"]]), "x86_64", len(spec["pool"]) - 1])
                 n_f11 += 1
-            elif r < 0.92:                                   # bool where an int is documented
-                spec = F.gen(rng, tier)
+            elif r < 0.92:                                   # bool where an int is documented: refused on dump (TypeError) since the F22 repair;
+                spec = F.gen(rng, tier)                      # with the bare isinstance loop it is written as true/false and read back as 1/0
                 if not spec["pool"]:
                     continue
-                img = rng.choice(spec["pool"]); img[rng.choice(F.INT_FIELDS)] = True
+                img = rng.choice(spec["pool"]); img[rng.choice(F.INT_FIELDS)] = (n % 4 != 0)
                 n_f19 += 1
                 F.make_unique(spec["pool"]) if not isinstance(img["disc_number"], bool) else None
             else:                                            # the library refuses to write: one attribute out of its domain
@@ -92,8 +93,7 @@ class C02(Prop):
                     # falsy values of every type for every attribute, round-robin (legal ones must round-trip, the others be refused)
                     f = F.rr(F.FIELDS)
                     val = F.rr([None, False, 0, {"$float": "0.0"}, "", [], {}, {"$other": False}])
-                    if f in F.INT_FIELDS and isinstance(val, bool):
-                        val = 0                              # bool in an int attribute is the F22 stream
+                    # (False in an int attribute: refused with TypeError like every other wrong type - F22 repaired)
                 if f == "additional_variants":
                     img["unified"] = False
                 img[f] = val
@@ -144,6 +144,8 @@ class C02(Prop):
                                 sv[k] = r.pop(k)
                     if rng.random() < 0.2:
                         r["mtime"] = str(r["mtime"]); r["bootable"] = int(r["bootable"])     # coerced by the reader
+                    if rng.random() < 0.15:
+                        r["disc_count"] = True                  # JSON `true` in an int attribute: the reader's int() makes it 1 (then valid)
                 # the quantifier is over manifests whose images are distinguishable (identity unique since 1.1): an absent key
                 # is read as its default, so records whose DEFAULTED identity would coincide with another image's (with other
                 # checksums) get their explicit keys back, until the document is as distinguishable as the spec was
